@@ -76,7 +76,67 @@ def nontrivial_render(op, obs):
     return "body=json" in obs or "body=html" in obs or "Location:*" in obs
 
 
-PURE_NONTRIVIAL = {"scope": nontrivial_scope, "audience": nontrivial_audience, "hmac": nontrivial_hmac, "redirect": nontrivial_redirect, "render": nontrivial_render}
+def nontrivial_clientauth(op, obs):
+    if obs.startswith("ok ") or "auth=ok " in obs:
+        return True
+    f = op.split("\t"); kv = {x.split("=", 1)[0]: x.split("=", 1)[1] for x in f[2:] if "=" in x}
+    ids = [c.split("|")[0] for c in kv.get("clients", "").split(",")[1:]]
+    pid = kv.get("bid") if kv.get("bok") == "1" else (kv.get("rcid") if f[1].startswith("par") else kv.get("pcid"))
+    return pid in ids and "invalid_client" in obs   # rejected by secret comparison / method gating of a registered client
+
+
+def nontrivial_expiry(op, obs):
+    f = op.split("\t"); kind = f[1]
+    kv = {x.split("=", 1)[0]: x.split("=", 1)[1] for x in f[2:] if "=" in x}
+    S = 10 ** 9
+    def num(k):
+        try:
+            return int(kv[k]) if kv.get(k, "-") not in ("-", "z", "") else None
+        except ValueError:
+            return None
+    if kind in ("at", "ac", "dc", "uc", "rt"):
+        if kv.get("mac", "ok") != "ok":
+            return obs.endswith("/401") or obs.startswith("err expired_token")
+        exp, now = num("exp"), num("now")
+        if now is None:
+            return False
+        if exp is None:
+            if kind == "rt":
+                return True
+            life = num("life") or {"at": 3600 * S, "ac": 900 * S, "dc": 600 * S, "uc": 600 * S}[kind]
+            if num("req") is None:
+                return False
+            exp = num("req") + life
+        return abs(now - exp) <= S
+    if kind == "jwt":
+        if kv.get("sig") != "ok":
+            return False
+        exp, now = num("exp"), num("now")
+        return (exp is not None and now is not None and abs(now - (exp // S) * S) <= 2 * S) or kv.get("iat", "-") != "-" or kv.get("nbf", "-") != "-" or exp is None
+    if kind == "claims":
+        return obs != "ok" or any(kv.get(k, "-")[:2] in ("f:", "j:", "s:", "I:") for k in ("exp", "iat", "nbf"))
+    if kind == "verify":
+        return kv.get("v", "-") != "-"
+    if kind == "life":
+        return kv.get("cl") not in ("nil", "none")
+    if kind == "assert":
+        exp, now = num("exp"), num("now")
+        return (exp is not None and now is not None and abs(now - exp * S) <= 2 * S) or kv.get("nbf", "-") != "-" or kv.get("iat", "-") == "-"
+    return kind in ("expin", "stamp", "par")
+
+
+def nontrivial_assertion(o, b):
+    return (b.startswith("ok") or ",ok" in b or "jti_known" in b
+            or (b.startswith("accepted=") and not b.startswith("accepted=0"))
+            or ((";by=R" in o or ";by=E" in o) and ";alg=HS256" not in o))
+
+
+def nontrivial_idtoken(op, obs):
+    return obs.startswith("idtoken ") or (obs.startswith("err ") and "granted=,openid" in op)
+
+
+PURE_NONTRIVIAL = {"scope": nontrivial_scope, "audience": nontrivial_audience, "hmac": nontrivial_hmac, "redirect": nontrivial_redirect, "render": nontrivial_render,
+                   "clientauth": nontrivial_clientauth, "expiry": nontrivial_expiry, "assertion": nontrivial_assertion, "idtoken": nontrivial_idtoken}
 
 HIST_RULE = ("D1 history driver: seeded histories (2-5 clients, code / hybrid / refresh / revoke / introspect / time-advance / registration-change operations, ~70% valid continuations and ~30% adversarial moves: replay of any generation, foreign or unauthenticated client, changed redirect_uri, verifier variants, mutated or foreign tokens, smuggled parameters, boundary time jumps) executed in-process against the real library over the reference store inside a synctest bubble and against the Lean model; compared per operation: outcome (+RFC error/status), storage-call log, full store dump; a history is non-trivial when an accepted credential exchange is followed by a later operation on one of its tokens; distinct = distinct op sequences")
 
@@ -162,6 +222,56 @@ PROPS = {
         drivers=[dict(name="hist", kind="hist")],
         rule=HIST_RULE + "; PAR flows: push (authenticated / not, with credentials in the body, with a request_uri inside), use by the pushing / another client, twice, after expiry, with conflicting extra query parameters, unknown URIs, enforcement on/off",
         partial=["request validation of the push (redirect URI, response types) is C13's model; 'pushed values authoritative' is proved on the request the handlers receive and observed end to end through the redirect_uri / PKCE binding of the resulting code"],
+    ),
+    "C07": dict(
+        modules=["Fosite.Props.C07"],
+        facts=True,
+        drivers=[dict(name="expiry", kind="pure"), dict(name="hist", kind="hist")],
+        rule=HIST_RULE + " — D4 pure driver 'expiry': every op in its own testing/synctest bubble (virtual clock from 2000-01-01Z, slept to the exact ns). Real strategies from compose.NewOAuth2HMACStrategy / NewOAuth2JWTStrategy / NewDeviceStrategy called directly with crafted DefaultSession / JWTSession / openid.DefaultSession and Request.RequestedAt. Kinds: at ac rt dc uc (Validate*), jwt (mint at issue, validate at now), claims / verify (MapClaims.Valid, Verify* over float64/int64/json.Number/string/int/nil/absent), expin (HandleHelper.IssueAccessToken), life (GetEffectiveLifespan, every (grant,token) string pair incl. unknown x {plain client, nil lifespans, empty, each single field, all, all-but-one, zero/negative values}), stamp (IssueAuthorizeCode, client-credentials, implicit, password, device auth, jwt-bearer handlers: stamped instant + expires_in), par (push, then use the request_uri), assert (RFC 7523 assertion through rfc7523.Handler). Ages swept at expiry + {-30d,-1d,-1h,-2s,-1s-1ns,-1s,-1s+1ns,-0.5s,-1ns,0,+1ns,+0.5s,+1s-1ns,+1s,+1s+1ns,+2s,+1h,+1d,+30d,+400d} x seven sub-second shapes of the instant x every lifetime source (session value, server default (0), configured, negative, per-client override, unlimited refresh) x MAC verdict ok/mismatch/format, plus seeded random sweeps (1500 quick / 40000 thorough). Compared: RFC error name/status, emitted exp/iat/nbf, durations, stamped instants. Non-trivial = age within 1 s (2 s for whole-second credentials) of the deciding instant, unlimited refresh at any age, override/default in play, non-int64 NumericDate, any stamp/par/expin op; distinct = distinct op lines",
+        assumptions=["the MAC/JWS verdict on the presented string is a parameter (C06); the executor cross-checks it with a direct Enigma.Validate",
+                     "strconv on a json.Number text and the JSON round trip of an int64 NumericDate are parameters (facts on the op line, recomputed on replay)",
+                     "instants lie in 1970..2262 and durations fit int64 (Go time arithmetic does not overflow); locations never matter (tz field varied, model ignores it)",
+                     "whole-second reading of the JWT exp claim; `exp: 0`, non-numeric exp and a session without access-token expiry are legacy jwt-go readings, theorems carry the hypothesis second <= exp",
+                     "a pushed authorization response built with a nil session records no expiry (application misuse; the spec answers skip for sess=nil)"],
+        partial=["history-level halves (code / opaque access / refresh inside arbitrary histories) are tied to these guards by history_expiry_guard_is_this_guard / history_refresh_guard_is_this_guard and the hist correspondence, not re-proved per history here",
+                 "stamping sites codeToken / refresh / deviceToken / hybridCode are covered by the hist driver and by reading (Site.rounds), not by pure ops",
+                 "RFC 7523: only the time checks of validateTokenClaims are modelled here (aud / jti / key are C15)"],
+    ),
+    "C10": dict(
+        modules=["Fosite.Props.C10"],
+        facts=True,
+        drivers=[dict(name="clientauth", kind="pure")],
+        rule="D5 pure driver 'clientauth': real provider (compose.ComposeAllEnabled over storage.NewMemoryStore, bcrypt cost 4) behind a storage-write recorder. AuthenticateClient is called directly, and NewAccessRequest+NewAccessResponse / NewRevocationRequest / NewPushedAuthorizeRequest+Response / NewDeviceRequest+Response are called with the endpoint's own authentication verdict captured through the ClientAuthenticationStrategy hook. Full cross product (exhaustive in thorough, 6 % seeded sample in quick): 28 registrations (plain/OIDC x 6 token_endpoint_auth_methods x public/confidential x with/without rotated secrets, plus ids and secrets made of URL-special characters) x 17 transports (Basic, body, both same/conflicting, Basic of another or of a public client plus a body id, neither, id only, unescaped, %zz in id/secret, empty id, bad base64, Bearer, no colon, empty Basic secret plus body, URL query) x 5 secret relations x 3 ids x 11 endpoint/grant variants (six grants incl. jwt-bearer with skip off/on, revocation of a live token, PAR, device). Always complete: HTTP preconditions, grant_type variants, explicit client_id next to Basic credentials, the assertion branch as an abstract sub-result (real RS256 assertions: missing, garbage, valid, replayed jti, no token URL), empty-secret registrations. Compared: verdict, result incl. acting client, sorted list of Create*/Delete*/Revoke*/Invalidate*/Rotate* storage calls. Non-trivial = accepted, or invalid_client for a registered id; distinct = distinct op lines",
+        assumptions=["bcrypt Compare, r.BasicAuth, url.QueryUnescape and net/http form parsing are parameters computed with the real libraries on each line",
+                     "the client_assertion branch is an abstract outcome here (C15 models it)",
+                     "the code behind the gate is an abstract per-client downstream result (down=), fixed by construction of the dummy grant material and re-checked by the diff",
+                     "the spec answers skip when a registered hash matches the empty secret; UnescapeFaithful (only \"\" decodes to \"\") is asserted by the generator"],
+        partial=["the token-endpoint spec assumes all responsible handlers agree on CanSkipClientAuth (true of every composition)",
+                 "RemoveEmpty's trimming of non-space whitespace is not modelled"],
+    ),
+    "C14": dict(
+        modules=["Fosite.Props.C14"],
+        drivers=[dict(name="idtoken", kind="pure", spec_sees_obs=True)],
+        rule="D6-style stateless driver 'idtoken': one op = one complete OIDC exchange against compose.ComposeAllEnabled over a fresh MemoryStore inside its own synctest bubble (exact virtual clock). First step in {code, id_token, id_token token, code id_token, code id_token token, code token, device authorization + application accept}; reported step in {authorize, token endpoint, refresh}. Key in {RSA-2048 RS256, P-256 ES256, JWK ES384/ES512/RS384/PS512}. Varied: session alg header, subject, session issuer/aud/jti/acr/amr, auth_time vs requested_at, preset exp, Extra claims overriding all 13 reserved names, granted scopes, nonce length around the minimum, MinParameterEntropy, max_age incl. int64 overflow, prompt lists, id_token_hint in {same, other, expired, expired_other, garbage, wrongkey, nosub}, public/confidential, secure/insecure redirect, per-client and config lifespans incl. 0 and negative, pauses between steps up to 2 h, grant_type injection, refresh nonce. Every id_token is verified with go-jose and the public key, decoded, and at_hash/c_hash recomputed with crypto/sha256/sha512 by the JWS alg from the access token/code of the same exchange. Compared: the full canonical line. Non-trivial = an ID token was issued, or an error with openid granted",
+        assumptions=["the OAuth2 core around the openid handlers succeeds; the generator keeps client, redirect, state, scopes, client authentication and code validity in order",
+                     "the session alg header is consistent with the signing key (weaker reading; inconsistent headers only behind FZ_IDT_INCONSISTENT=1)",
+                     "in the device flow the OIDC form is application-supplied, with single-valued prompt and no grant_type (FZ_IDT_DEVICE_FORM=1 lifts this)",
+                     "library parameters taken from the op line: sigalg, ParseInt(max_age), Signer.Decode(hint), IsRedirectURISecure; the executor re-checks each and answers bad-fact if the line lies",
+                     "times are on the Unix-ns Int line; jws_verify_sound is trusted (the harness verifies with go-jose)"],
+        partial=["the monitor Spec.IDToken.check is not yet proved silent on all model exchanges as one theorem; the per-clause theorems cover it",
+                 "at_hash/c_hash follow the session header alg, not the JWS alg; GenerateIDToken compares prompt verbatim; a form grant_type=refresh_token switches off the max_age/prompt/hint block (only reachable in the device flow with an application-supplied form): limit theorems hash_follows_session_header_not_jws_alg, generate_compares_prompt_verbatim, generate_skips_request_checks_on_refresh_grant"],
+    ),
+    "C15": dict(
+        modules=["Fosite.Props.C15"],
+        drivers=[dict(name="assertion", kind="pure")],
+        rule="D5 pure driver 'assertion': each op is one synctest bubble against a fresh MemoryStore + compose.ComposeAllEnabled. Real JWS built by go-jose from descriptors, signed with 2 RSA-2048 and 2 P-256 keys generated once per process, algs RS256/PS256/ES256; HS256 keyed with the PKIX bytes of a registered public key; alg=none hand-built; the 'by' fact on each line is cross-checked with go-jose Verify against all four keys. Client path: NewAccessRequest (client_credentials), NewRevocationRequest, NewPushedAuthorizeRequest, NewDeviceRequest. Bearer path: NewAccessRequest + NewAccessResponse with keys in MemoryStore.IssuerPublicKeys. Three valid bases per path; all single deviations over ~20 dimensions (wire, client_id, alg x signer, kid, each claim absent / wrong type / wrong value, exp/nbf/iat at +-{0, 1 ns, 0.5 s, 1 s}, auth method, registered alg, JWKS shapes, token URLs 0/1/2, endpoint, iat/jti optional, max duration +-1 ns, scope strategy, key registrations); pairs sampled in quick and exhaustive in thorough, plus random 1-4-fold mutations. Replay histories: replay at exp + each boundary delta, both presentations around exp, 3-6 presentations, bad-audience first (burns the jti), failures that do not burn it, same jti with a different exp or client/issuer, optional jti, seeded random histories. Concurrency: 2 and 3 goroutines presenting one assertion, free-running. Compared: ok client=... / ok / ok sub=... / err name/status per presentation, or accepted=k/n",
+        assumptions=["JWS parsing and verification plus JSON decoding are parameters: by = the verifying key; floats carry their int64() truncation, which the executor re-checks",
+                     "JWKS are inline only; bearer runs with GrantTypeJWTBearerCanSkipClientAuth=true and a DefaultSession",
+                     "int claims satisfy |x| < 2^53; time.Duration saturation is not modelled",
+                     "bearer_assertion_complete assumes WellFormedKeys (the JWK stored under a kid carries that KeyID, and (iss, sub, kid) is unique)",
+                     "readings, each the one demanding less: unexpired = whole seconds; nbf <= now; a jti once = one (jti, exp) ticket"],
+        partial=["JWKS-URI registrations and client_secret_jwt are not modelled",
+                 "concurrency theorems are over three atomic steps per presentation (lookup + pure checks, ClientAssertionJWTValid, SetClientAssertionJWT) with an arbitrary scheduler; the Go memory model is not modelled"],
     ),
     "C19": dict(
         modules=["Fosite.Props.C19"],
@@ -425,7 +535,14 @@ def run_pure(R, pid, d, work, seed, tier, replay_file=None):
         return res
     model, spec = os.path.join(wd, "model.out"), os.path.join(wd, "spec.out")
     okm, errm = R.run_driver("pure-model", ops, model)
-    oks, errs = R.run_driver("pure-spec", ops, spec)
+    spec_in = ops
+    if d.get("spec_sees_obs"):
+        # the documented meaning is a predicate on (op, observation): the spec driver reads the implementation line
+        spec_in = os.path.join(wd, "ops_obs.txt")
+        with open(spec_in, "w") as f:
+            for o, b in zip(R.read_lines(ops), R.read_lines(obs)):
+                f.write(o + "\tobs=" + b + "\n")
+    oks, errs = R.run_driver("pure-spec", spec_in, spec)
     lo, li, lm, ls = R.read_lines(ops), R.read_lines(obs), R.read_lines(model), R.read_lines(spec)
     res["evaluations"] = len(lo)
     res["traces"] = len(lo)
@@ -453,6 +570,8 @@ def run_pure(R, pid, d, work, seed, tier, replay_file=None):
         if b != s:
             f = o.split("\t")
             sig = "%s:%s" % (f[0], f[1])
+            if s.startswith("VIOLATION "):
+                sig = "%s:%s" % (f[0], s[len("VIOLATION "):].split(" ")[0])
             if sig in seen:
                 continue
             seen.add(sig)
